@@ -84,7 +84,7 @@ func Load(goos string, overlay map[string][]byte, patterns ...string) (*Prog, er
 			return
 		}
 		seenFn[fn] = true
-		if fn.Blocks != nil && fn.Synthetic == "" && p.firstParty(fn) {
+		if fn.Blocks != nil && (fn.Synthetic == "" || strings.HasPrefix(fn.Synthetic, "range-over-func")) && p.firstParty(fn) {
 			p.allFns = append(p.allFns, fn)
 		}
 		for _, a := range fn.AnonFuncs {
